@@ -225,4 +225,130 @@ theorem noFault_entryArrs (io : FloatIO) : ∀ (es : List Entry) (m : FMap) (ind
     · exact noFault_entryArrs io es m ind hm
 end
 
+/-! ### the container law -/
+
+theorem intercalate_cons (sep : Str) (x : Str) (xs : List Str) :
+    sep.intercalate (x :: xs) = x ++ (xs.map (sep ++ ·)).flatten := by
+  induction xs generalizing x with
+  | nil => simp [List.intercalate]
+  | cons y ys ih =>
+    have := ih y
+    simp [List.intercalate] at this ⊢
+    rw [this]
+
+theorem arrayRest_nonalt (f : Fmt) (hf : f.alt = false) (sep pad : Str) :
+    ∀ (rest : List (Str × Bool)) (prev : Bool),
+      arrayRest f sep pad false rest prev = (rest.map (fun p => (sep ++ [' ']) ++ p.1)).flatten
+  | [], _ => by simp [arrayRest]
+  | (s, ah) :: rest, prev => by
+    simp only [arrayRest, hf, arrayRest_nonalt f hf sep pad rest ah]
+    simp
+
+theorem arrayAssemble_nonalt (f : Fmt) (ind : Ind) (parts : List (Str × Bool)) (hf : f.alt = false) (hi : ind.indenting = false) :
+    arrayAssemble f ind parts =
+      (delimPair f.ldelim '[').1 ++ (f.sep.getD [','] ++ [' ']).intercalate (parts.map (·.1)) ++ (delimPair f.ldelim '[').2 := by
+  unfold arrayAssemble
+  simp only [hf, hi, Ind.withIndenting, Ind.breaks, Bool.or_self, Bool.false_and, Bool.false_eq_true, if_false]
+  cases parts with
+  | nil => simp [List.intercalate]
+  | cons p rest =>
+    obtain ⟨s, ah⟩ := p
+    simp only [List.map_cons, intercalate_cons, arrayRest_nonalt f hf]
+    simp [List.map_map, Function.comp_def]
+
+
+theorem hashEntries_eq (assoc sep : Str) : ∀ (parts : List (Str × Str)),
+    hashEntries assoc sep [] parts = sep.intercalate (parts.map (fun p => p.1 ++ assoc ++ p.2))
+  | [] => by simp [hashEntries, List.intercalate]
+  | [(k, v)] => by simp [hashEntries, List.intercalate]
+  | (k, v) :: p2 :: rest => by
+    have ih := hashEntries_eq assoc sep (p2 :: rest)
+    rw [hashEntries, ih]
+    simp only [List.map_cons, intercalate_cons]
+    simp
+    all_goals (intro h; cases h)
+
+theorem hashAssemble_nonalt (f : Fmt) (ind : Ind) (parts : List (Str × Str)) (hf : f.alt = false) (hi : ind.indenting = false) :
+    hashAssemble f ind parts =
+      (delimPair f.ldelim '{').1 ++
+        (f.sep.getD [','] ++ [' ']).intercalate (parts.map (fun p => p.1 ++ f.sep2.getD " => ".toList ++ p.2)) ++
+      (delimPair f.ldelim '{').2 := by
+  unfold hashAssemble
+  simp only [hf, hi, Ind.withIndenting, Ind.breaks, Bool.or_self, Bool.false_and, Bool.false_eq_true, if_false,
+    hashEntries_eq]
+  simp
+
+/-- the children of a container render to the texts `texts`: a container child under the parent's map, any other child
+    under the container formats `cf` -/
+def ChildrenText (io : FloatIO) (m cf : FMap) (ci : Ind) : List Val → List Str → Prop
+  | [], [] => True
+  | v :: vs, s :: ss => fmtVal io (if v.isContainer then m else cf) ci v = .text s ∧ ChildrenText io m cf ci vs ss
+  | _, _ => False
+
+theorem fmtElems_of_children (io : FloatIO) (m cf : FMap) (ci : Ind) : ∀ (vs : List Val) (texts : List Str),
+    ChildrenText io m cf ci vs texts → ∃ parts, fmtElems io m cf ci vs = .ok parts ∧ parts.map (·.1) = texts
+  | [], [], _ => ⟨[], by simp [fmtElems], rfl⟩
+  | v :: vs, s :: ss, h => by
+    obtain ⟨parts, hp, hm⟩ := fmtElems_of_children io m cf ci vs ss h.2
+    refine ⟨(s, v.isContainer) :: parts, ?_, by simp [hm]⟩
+    simp only [fmtElems, h.1, ResL.cons, hp]
+  | [], _ :: _, h => by simp [ChildrenText] at h
+  | _ :: _, [], h => by simp [ChildrenText] at h
+
+/-- the entries of a hash render to the key and value texts -/
+def EntriesText (io : FloatIO) (m cf : FMap) (ci : Ind) : List Entry → List (Str × Str) → Prop
+  | [], [] => True
+  | .mk k v :: es, (sk, sv) :: ss =>
+    fmtVal io (if k.isContainer then m else cf) ci k = .text sk ∧
+    fmtVal io (if v.isContainer then m else cf) ci v = .text sv ∧ EntriesText io m cf ci es ss
+  | _, _ => False
+
+theorem fmtPairs_of_entries (io : FloatIO) (m cf : FMap) (ci : Ind) : ∀ (es : List Entry) (texts : List (Str × Str)),
+    EntriesText io m cf ci es texts → fmtPairs io m cf ci es = .ok texts
+  | [], [], _ => by simp [fmtPairs]
+  | .mk k v :: es, (sk, sv) :: ss, h => by
+    have ih := fmtPairs_of_entries io m cf ci es ss h.2.2
+    simp only [fmtPairs, h.1, h.2.1, ResL.cons, ih]
+  | [], _ :: _, h => by simp [EntriesText] at h
+  | _ :: _, [], h => by simp [EntriesText] at h
+
+/-- **container law, arrays** (non-alt): left delimiter ++ intercalate (separator ++ blank) (element renderings) ++
+    right delimiter, whatever the elements are (containers included: the law applies to them in turn) -/
+theorem fmtVal_array (io : FloatIO) (m : FMap) (ind : Ind) (vs : List Val) (texts : List Str)
+    (hl : isArrayLetter (getFormat m .arr).f.letter = true) (halt : (getFormat m .arr).f.alt = false)
+    (hind : ind.indenting = false)
+    (hc : ChildrenText io m (cfOf (getFormat m .arr)) (arrayChildInd (getFormat m .arr).f ind) vs texts) :
+    fmtVal io m ind (.array vs) =
+      .text ((delimPair (getFormat m .arr).f.ldelim '[').1 ++
+        ((getFormat m .arr).f.sep.getD [','] ++ [' ']).intercalate texts ++ (delimPair (getFormat m .arr).f.ldelim '[').2) := by
+  obtain ⟨parts, hp, hm⟩ := fmtElems_of_children io m _ _ vs texts hc
+  simp only [fmtVal, hl, Bool.not_true, Bool.false_eq_true, if_false, hp]
+  rw [arrayAssemble_nonalt _ _ _ halt hind, hm]
+
+/-- **container law, hashes** (non-alt, letters h s p) -/
+theorem fmtVal_hash (io : FloatIO) (m : FMap) (ind : Ind) (es : List Entry) (texts : List (Str × Str))
+    (hl : isHashLetter (getFormat m .hash).f.letter = true) (halt : (getFormat m .hash).f.alt = false)
+    (hind : ind.indenting = false)
+    (hc : EntriesText io m (cfOf (getFormat m .hash)) (hashChildInd (getFormat m .hash).f ind) es texts) :
+    fmtVal io m ind (.hash es) =
+      .text ((delimPair (getFormat m .hash).f.ldelim '{').1 ++
+        ((getFormat m .hash).f.sep.getD [','] ++ [' ']).intercalate
+          (texts.map (fun p => p.1 ++ (getFormat m .hash).f.sep2.getD " => ".toList ++ p.2)) ++
+        (delimPair (getFormat m .hash).f.ldelim '{').2) := by
+  have hp := fmtPairs_of_entries io m _ _ es texts hc
+  have hna : (getFormat m .hash).f.letter ≠ 'a' := by
+    intro h; rw [h] at hl; simp [isHashLetter] at hl
+  simp only [fmtVal, hna, if_false, hl, Bool.not_true, Bool.false_eq_true, hp]
+  rw [hashAssemble_nonalt _ _ _ halt hind]
+
+/-- the letter of a container is checked before anything else -/
+theorem fmtVal_array_unsupported (io : FloatIO) (m : FMap) (ind : Ind) (vs : List Val)
+    (hl : isArrayLetter (getFormat m .arr).f.letter = false) : fmtVal io m ind (.array vs) = .reported .unsupported := by
+  simp [fmtVal, hl]
+
+theorem fmtVal_hash_unsupported (io : FloatIO) (m : FMap) (ind : Ind) (es : List Entry)
+    (hl : isHashLetter (getFormat m .hash).f.letter = false) (ha : (getFormat m .hash).f.letter ≠ 'a') :
+    fmtVal io m ind (.hash es) = .reported .unsupported := by
+  simp [fmtVal, hl, ha]
+
 end Pcore.Format
